@@ -9,14 +9,15 @@ CREDS = {"valid": (b"alice", b"secret"), "wrongpass": (b"alice", b"Secret"), "un
          "emptypass_user": (b"carol", b""), "long255": (b"a" * 255, b"b" * 255), "nonutf8": (b"al\xffce", b"secr\xfe")}
 
 
-def socks5_offer(port, offer, cred, target, timeout=4.0):
+def socks5_offer(port, offer, cred, target, timeout=4.0, cmd="connect"):
     """SOCKS5 with an arbitrary method offer; everything (offer, credentials, request) pipelined. Returns (selected method, reply code or None)"""
     s = socket.create_connection(("127.0.0.1", port), timeout=timeout)
     c = bb.Conn(s)
     u, p = CREDS[cred]
     msg = b"\x05" + bytes([len(offer)]) + bytes(offer)
     auth = b"\x01" + bytes([len(u)]) + u + bytes([len(p)]) + p
-    req = b"\x05\x01\x00\x01" + socket.inet_aton(target[1]) + struct.pack(">H", target[2])
+    req = b"\x05" + {"connect": b"\x01", "bind": b"\x02", "udp": b"\x03"}[cmd] + b"\x00\x01" + \
+        (socket.inet_aton(target[1]) + struct.pack(">H", target[2]) if cmd == "connect" else b"\x00" * 6)
     c.send(msg)
     c.recv_some(timeout=timeout, want=2)
     if len(c.rx) < 2:
@@ -147,7 +148,7 @@ def run(tier, t0):
            % (ports["api"], scen.yaml_list(ls)))
     p1 = bb.Proxy("c07_p1", wd, cfg).start(wait_ports=[ports["api"]])
     nneg = 0
-    ctl = {k: 0 for k in ("neg_required", "neg_optional", "socks4", "ltls_http", "ltls_socks", "ltls_quic", "ctls_http", "ctls_socks", "ctls_quic")}
+    ctl = {k: 0 for k in ("neg_required", "neg_optional", "neg_required_udp", "neg_optional_udp", "socks4", "ltls_http", "ltls_socks", "ltls_quic", "ctls_http", "ctls_socks", "ctls_quic")}
     refused = []
     step = 1
     try:
@@ -157,18 +158,26 @@ def run(tier, t0):
                 continue
             for lname, key in (("s_req", "required"), ("s_opt", "optional")):
                 def neg_fn():
-                    method, rep = socks5_offer(ports[lname], c["offer"], c["cred"], T)
+                    method, rep = socks5_offer(ports[lname], c["offer"], c["cred"], T, cmd=c["cmd"])
                     return (rep == 0, method, rep)
-                contacted, info = observe(origin, neg_fn, c["routed_" + key])
+                if c["cmd"] == "connect":
+                    contacted, info = observe(origin, neg_fn, c["routed_" + key])
+                else:
+                    # UDP ASSOCIATE: being granted a relay (reply 0) is being routed; BIND is never served
+                    try:
+                        info = neg_fn()
+                    except OSError as e:
+                        info = ("error", repr(e)[:100])
+                    contacted = info[0] is True
                 method, rep = (info[1], info[2]) if info[0] != "error" else (None, None)
                 nneg += 1
                 want = c["routed_" + key]
-                ctl["neg_" + key] += int(want and contacted)
+                ctl["neg_" + key + ("_udp" if c["cmd"] == "udp" else "")] += int(want and contacted)
                 if want and not contacted:
                     refused.append(("neg", key, c["offer"], c["cred"]))
                 if contacted and not want:
                     kind = "routed-without-valid-credentials"
-                    v.report("auth/socks5/%s/%s/%s" % (key, kind, c["cred"]), {"offer": c["offer"], "cred": c["cred"], "selected": method, "reply": rep,
+                    v.report("auth/socks5/%s/%s/%s/%s" % (key, c["cmd"], kind, c["cred"]), {"offer": c["offer"], "cred": c["cred"], "cmd": c["cmd"], "selected": method, "reply": rep,
                                                                               "origin_contacted": contacted, "expected_routed": want,
                                                                               "expected_method": c["method_" + key]}, {"row": c, "listener": lname})
         # SOCKS4 ids against the listener that requires credentials
